@@ -32,7 +32,8 @@ REGISTRY = dict(
     text=("Proof (unbounded): polyak(tau, p, t) = (1-tau)*t + tau*p assembled from the factors regenerated from utils.polyak_update, tau=1 copies, tau=0 keeps, result between target and online "
           "for tau in [0,1], strict zip, an update leaves the online parameters untouched and optimizer steps leave the target untouched (event model); update-time sets for every run: DQN at vectorised "
           "steps that are multiples of max(tui // n_envs, 1) (= tui env steps when n_envs divides tui), TD3/DDPG at global gradient steps that are multiples of policy_delay whatever the grouping into "
-          "train() calls, SAC inside one train() call at loop indices that are multiples of tui. Tie: the three cadence conditions and the polyak factors are regenerated on every run + instrumented real runs. "
+          "train() calls, SAC inside one train() call at loop indices that are multiples of tui; at an update instant every target parameter gets polyak(configured tau) and every target running statistic is copied "
+          "(regenerated tau arguments of both polyak_update calls per algorithm), nothing writes the targets in between. Tie: the three cadence conditions and the polyak factors are regenerated on every run + instrumented real runs. "
           "PARTIAL: 'no optimizer touches a target parameter' is a runtime monitor (tensor snapshots around every optimizer.step, parameter identity), not a theorem."),
     note=("Trusted: Coq 8.16.1 kernel (vm_compute, no native_compute), translate/py2coq.py + specs/polyak.py, harness/c08.py, Python/numpy/torch. "
           "Not verified: torch in-place kernels mul_/add(alpha) and float32 rounding (exact dyadic stream + tolerance 1e-6 stream), autograd, the off-policy learn loop that decides the train() calls "
